@@ -5,12 +5,14 @@ reachable connection state, interleaved with inbound frames that cause sends.
 Oracle R3 (send monitor) after every event.
 """
 from mc import bfs, refs
-from mc.world import World1, num_in, num_out, stored_counters, journal_rows, conn_key, task_result
+import os
+
+from mc.world import World1, num_in, num_out, journal_rows, conn_key, task_result, TmpDir, committed_counters
 
 POOL = [("SRV", "CLI"), ("ACC", "INI"), ("S1", "T1"), ("EXCH", "FIRM")]
 CFG = {"S": "SRV", "T": "CLI", "quick": True}
 
-SENDS = ("app", "hb", "logon", "logout", "tr_direct", "tr_api", "sr_nonum", "sr_num", "pd_copy", "app_grp")
+SENDS = ("app", "hb", "logon", "logout", "tr_direct", "tr_api", "sr_nonum", "sr_num", "pd_copy", "app_grp", "app_pdn")
 INBOUND = ("logon", "app", "tr", "gap_app", "rr1", "rr2", "gapfill", "logout", "hb")
 
 
@@ -19,6 +21,9 @@ def mk_msg(kind, c, uid):
 
     if kind == "app":
         return FIXMessage("D", {11: f"o{uid}", 55: "X"})
+    if kind == "app_pdn":
+        # a NEW message that spells out PossDupFlag=N and still carries a stale MsgSeqNum (forwarded / template message)
+        return FIXMessage("D", {11: f"n{uid}", FTag.PossDupFlag: "N", FTag.MsgSeqNum: 40})
     if kind == "app_grp":
         return FIXMessage("D", {11: f"g{uid}", 453: [{448: "p", 447: "D", 452: 1}]})
     if kind == "hb":
@@ -42,7 +47,12 @@ class Sim:
     def __init__(self, root):
         _, role, start_out, S, T = root
         self.root = root
-        self.w = World1(role, S=S, T=T, next_out=start_out, next_in=1)
+        from asyncfix import Journaler
+
+        # file-backed journal: "stored" counters are read through a brand-new connection (committed data only)
+        self.tmp = TmpDir()
+        self.path = os.path.join(self.tmp.path, "j.db")
+        self.w = World1(role, S=S, T=T, next_out=start_out, next_in=1, journal=Journaler(self.path))
         self.ref_next = start_out  # number the next NEW message must carry
         self.sent = {}  # number -> set of bytes written under that number (any kind)
         self.new_numbers = []
@@ -62,6 +72,7 @@ class Sim:
 
     def close(self):
         self.w.close()
+        self.tmp.cleanup()
 
     def nontrivial(self):
         return self.nt
@@ -83,7 +94,7 @@ class Sim:
         c = self.w.c
         rows = tuple((d, seq, refs.fdict(refs.try_parse(m)[0] or []).get("35")) for (_, d, seq, m) in journal_rows(self.w.j))
         return (self.root, conn_key(c), rows, self.ref_next, self.peer_seq, self.connected, tuple(self.resend_ranges[-1:]),
-                stored_counters(self.w.j, self.w.T, self.w.S))
+                committed_counters(self.path, self.w.T, self.w.S))
 
     # ------------------------------------------------------------------
     def apply(self, ev):
@@ -92,7 +103,7 @@ class Sim:
         kind = ev[0]
         st = c.connection_state.name
         live_before = (num_in(c), num_out(c))
-        stored_before = stored_counters(w.j, w.T, w.S)
+        stored_before = committed_counters(self.path, w.T, w.S)
         rows_before = {(d, seq): m for (_, d, seq, m) in journal_rows(w.j)}
         nframes_before = len(w.writer.out) if w.writer else 0
         res = None
@@ -181,7 +192,7 @@ class Sim:
                     changed.append("bytes_written")
                 if (num_in(c), num_out(c)) != live_before:
                     changed.append("live_counter")
-                if stored_counters(w.j, w.T, w.S) != stored_before:
+                if committed_counters(self.path, w.T, w.S) != stored_before:
                     changed.append("stored_counter")
                 if rows_after != rows_before:
                     changed.append("journal_rows")
@@ -192,7 +203,7 @@ class Sim:
             self.tainted = self.tainted or None
         # ---- counters at quiescence ------------------------------------------------
         live_out = num_out(c)
-        sc = stored_counters(w.j, w.T, w.S)
+        sc = committed_counters(self.path, w.T, w.S)
         if self.new_numbers or kind == "connect":
             want = self.ref_next
             if live_out != want or (sc is not None and sc[1] != want):
